@@ -412,7 +412,22 @@ def run_json(seed, n_values, n_frames, fixed=True):
     if len(impl) != len(lines) or len(model) != len(lines):
         return dict(violations=[dict(what=f"frame harness failed rc={rc}/{rc2} {err} {err2}", no_input=True)], stats=stats)
     reenc = []
+    canon_hash = _re.compile(r"^(sha(256|512|384|1)-[A-Za-z0-9+/]+=*)?$")
+    def outside_hash_oracle(t):
+        # ssri::Integrity is an oracle: the tie only speaks about absent hashes and single well-formed `<algo>-<base64>` entries
+        # (ssri cuts a digest at a second '-', accepts any text as digest, sorts several entries, ...)
+        try:
+            j = _json.loads(t)
+        except Exception:
+            return False
+        h = j.get("hash") if isinstance(j, dict) else (j[3] if isinstance(j, list) and len(j) > 3 else None)
+        return isinstance(h, str) and not canon_hash.match(h)
     for t, i, m in zip(ftexts, impl, model):
+        if outside_hash_oracle(t):
+            stats["outside_hash_oracle"] = stats.get("outside_hash_oracle", 0) + 1
+            if i.startswith("OK"):
+                reenc.append(i[3:])
+            continue
         if outside_f64_oracle(t):
             stats["outside_f64_oracle"] = stats.get("outside_f64_oracle", 0) + 1
             if i.startswith("OK"):
